@@ -373,6 +373,12 @@ func c13FixView(r *Rng, roots []*MNode, sockets, trustedOnLinks bool) {
 			}
 			n.Stat.Xattrs[c13CapKey] = c13CapV2
 		}
+		// permission bits: every entry type also WITHOUT any execute bit (directories included: the
+		// walk runs as root), with odd group/other bits, and with setuid/setgid/sticky; the names of
+		// a link group are left alone (they are separate Stat values of one inode)
+		if m&os.ModeSymlink == 0 && !(m&os.ModeType == 0 && (n.Stat.Linkname != "" || targets[p])) && r.Chance(35) {
+			n.Stat.Mode = uint32(c13Perm(r, m&os.ModeType))
+		}
 		for _, k := range n.Kids {
 			rec(p, k)
 		}
@@ -380,6 +386,22 @@ func c13FixView(r *Rng, roots []*MNode, sockets, trustedOnLinks bool) {
 	for _, n := range roots {
 		rec("", n)
 	}
+}
+
+var c13Perms = []int{0644, 0600, 0640, 0444, 0, 0111, 0010, 0001, 0755, 0700, 0604, 0200, 0751}
+
+func c13Perm(r *Rng, typ os.FileMode) os.FileMode {
+	m := typ | os.FileMode(Pick(r, c13Perms))
+	if r.Chance(25) {
+		m |= os.ModeSetuid
+	}
+	if r.Chance(25) {
+		m |= os.ModeSetgid
+	}
+	if r.Chance(25) {
+		m |= os.ModeSticky
+	}
+	return m
 }
 
 // paths of a view, by class
@@ -437,7 +459,8 @@ func c13ThroughLink(p c13Paths, arg string) bool {
 	return false
 }
 
-var c13ModeStrs = []string{"u+x", "go-w", "a=rX", "u=rw,go=r", "0755", "04755", "+X", "g+s", "o+t,u-w", "=", "a+t", "ug=rwx,o=", "u=g", "go=u-w", "-x"}
+var c13ModeStrs = []string{"u+x", "go-w", "a=rX", "u=rw,go=r", "0755", "04755", "+X", "g+s", "o+t,u-w", "=", "a+t", "ug=rwx,o=", "u=g", "go=u-w", "-x",
+	"a+X", "u=rwX,go=rX", "a-X", "g=X", "o=X,u+s", "ug+s,o-r", "u-s,g-s,-t", "a=", "go=,u+X", "u=rwxs,g=rxs,o=t", "+t,g+X", "a-x,a+X", "u+X,u-w", "0644", "02640"}
 
 // every option drawn independently (option COMBINATIONS: chown x mode x modestr x utime x
 // dir-contents x always-replace), used for half of the cases
@@ -803,6 +826,44 @@ func c13Directed(g *Gen) {
 
 // the Utime option, destination levels that MkdirAll has to create, and every way of naming the
 // roots: created parents must carry the requested time whatever the root is called
+// every mode string against source directories and files of every permission class (no execute bit
+// at all, some, special bits), copied as a tree (d with a file, a sub-directory and a fifo) and alone
+func c13DirectedModes(g *Gen) {
+	r := g.Rng
+	dperm := []os.FileMode{0644, 0600, 0640 | os.ModeSetgid, 0755, 0700 | os.ModeSticky, 0, 0444 | os.ModeSetuid, 0010}
+	fperm := []os.FileMode{0644, 0755, 0600 | os.ModeSetuid, 0, 0640 | os.ModeSetgid, 0001, 0444 | os.ModeSticky}
+	i := 0
+	for _, ms := range c13ModeStrs {
+		for _, dp := range dperm {
+			i++
+			o := c13Opts{umask: Pick(r, []int{022, 0, 027, 077}), modeStr: ms}
+			ocls := "modestr"
+			if i%5 == 0 {
+				o.chown = &[2]int{Pick(r, []int{0, 1000}), Pick(r, []int{0, 5})}
+				ocls += "+chown"
+			}
+			if i%7 == 0 {
+				m := Pick(r, []int{0755, 0644, 02750})
+				o.mode = &m
+				ocls += "+mode"
+			}
+			d := c13DirOf("d", r, c13Node("file", "f", r, ""), c13DirOf("e", r, c13Node("file", "g", r, "")), c13Node("fifo", "p", r, ""))
+			d.Stat.Mode = uint32(os.ModeDir | dp)
+			d.Kids[0].Stat.Mode = uint32(Pick(r, dperm) | os.ModeDir)
+			d.Kids[1].Stat.Mode = uint32(fperm[i%len(fperm)])
+			d.Kids[2].Stat.Mode = uint32(os.ModeNamedPipe | Pick(r, fperm))
+			d.Kids[0].Kids[0].Stat.Mode = uint32(Pick(r, fperm))
+			src := Pick(r, []string{"d", "d", "d/f", "d/e", "/"})
+			dst := Pick(r, []string{"n", "n/", "n1/n2"})
+			if i%3 == 0 {
+				o.dirContents = true
+			}
+			in := L(ViewSx([]*MNode{d}), ViewSx(nil), S(src), S(dst), o.Sx(), Bool(false))
+			g.Emit(0x1301, in, true, "directed-modes/"+ocls)
+		}
+	}
+}
+
 func c13DirectedRoots(g *Gen) {
 	r := g.Rng
 	for rm := 0; rm < 6; rm++ {
@@ -940,6 +1001,7 @@ func c13OK(out Sx) bool {
 func genC13(g *Gen) {
 	c13Directed(g)
 	c13DirectedRoots(g)
+	c13DirectedModes(g)
 	c13Collide(g, 0x1301, false, g.Vol(100, 2000))
 	n := g.Vol(1500, 30000)
 	for i := 0; i < n; i++ {
@@ -954,7 +1016,7 @@ func genC13(g *Gen) {
 	}
 	// mode strings against the real library
 	frag := []string{"u", "g", "o", "a", "+", "-", "=", "r", "w", "x", "X", "s", "t", ",", "7", "5", "0", "4"}
-	perms := []int{0, 0644, 0755, 0600, 0111, 0444, 04755, 02755, 01777, 07777, 0010}
+	perms := []int{0, 0644, 0755, 0600, 0111, 0444, 04755, 02755, 01777, 07777, 0010, 0640, 02640, 04600, 01644, 0001}
 	for _, s := range c13ModeStrs {
 		for _, p := range perms {
 			for _, d := range []bool{false, true} {
